@@ -453,6 +453,15 @@ def run_unit(unit, tier):
             for o in offsets():
                 once('DTM', b + o, '2.5')
                 check_util(res, 'DTM', b + o)
+        # a date takes no offset, a time of day no date: each class with the well-formed literals of the other two
+        for b in ('2020', '202002', '20200229'):
+            for o in offsets():
+                once('DT', b + o, '2.5')
+                check_util(res, 'DT', b + o)
+        for lit in LITS['TM'] + LITS['DTM']:
+            once('DT', lit, '2.5')
+        for lit in LITS['DTM'][3:]:
+            once('TM', lit, '2.5')
         res.dims['fraction/offset strings'] += res.states - n0
     elif kind == 'dtm-grid':
         for s in dtm_grid(tier):
